@@ -269,20 +269,16 @@ class FixedArray
     template <class S>
     explicit FixedArray(const FixedArray<S> &other)
         : _ptr(0), _length(other.len()), _stride(1), _writable(true),
-          _handle(), _unmaskedLength(other.unmaskedLength())
+          _handle(), _unmaskedLength(0)
     {
+        // The converted values are stored compactly (other[i] already
+        // resolves a masked reference), so the result is a plain array:
+        // it must not inherit the mask indices of 'other', which address
+        // the larger, unmasked buffer.
         boost::shared_array<T> a(new T[_length]);
         for (size_t i=0; i<_length; ++i) a[i] = T(other[i]);
         _handle = a;
         _ptr = a.get();
-
-        if (_unmaskedLength)
-        {
-            _indices.reset(new size_t[_length]);
-
-            for (size_t i = 0; i < _length; ++i)
-                _indices[i] = other.raw_ptr_index(i);
-        }
     }
 
     FixedArray(const FixedArray &other)
